@@ -275,7 +275,7 @@ add("C15", "new generator method flips pretty without restore", G,
     "    def _verif_bad(self, e: exp.Expr) -> str:\n        self.pretty = False\n        return self.sql(e)\n\n    def sep(self, sep: str = \" \") -> str:\n", "C15.b.generator")
 add("C15", "subclass body pops from the parent's KEYWORDS", "sqlglot/dialects/duckdb.py",
     "        KEYWORDS = {\n            **tokens.Tokenizer.KEYWORDS,\n            \"//\": TokenType.DIV,",
-    "        tokens.Tokenizer.KEYWORDS.pop(\"/*+\", None)\n        KEYWORDS = {\n            **tokens.Tokenizer.KEYWORDS,\n            \"//\": TokenType.DIV,", "C15.c")
+    "        tokens.Tokenizer.KEYWORDS.pop(\"VERIF_NO_SUCH\", None)\n        KEYWORDS = {\n            **tokens.Tokenizer.KEYWORDS,\n            \"//\": TokenType.DIV,", "C15.c")
 add("C15", "class body mutates an inherited table by alias", "sqlglot/dialects/duckdb.py",
     "    DATE_PART_MAPPING = {\n        **Dialect.DATE_PART_MAPPING,\n        \"DAYOFWEEKISO\": \"ISODOW\",\n    }\n",
     "    DATE_PART_MAPPING = Dialect.DATE_PART_MAPPING\n", "C15.c")
